@@ -24,6 +24,8 @@ from mc.report import Report, Acc, exc_sig
 from mc.oracle import gf2
 
 import itertools
+import contextlib
+import io
 
 from bitarray import bitarray
 from bitarray.util import int2ba, ba2int
@@ -1147,6 +1149,60 @@ def run(only=None):
                 finally:
                     seams.uninstall()
                 s.case(nontrivial=True, calls=3, outcome=wrap, sample=case if len(s.samples) < 1 else None)
+        s.done()
+
+    # ---- 9: the verdicts as a received burst presents them ------------------------------------------------
+    if want("verdicts_through_burst_parsing"):
+        from okdmr.dmrlib.etsi.layer2.burst import Burst as _B
+        from okdmr.dmrlib.etsi.layer2.elements.burst_types import BurstTypes as _BT
+        from mc import bursts as _MB
+        s = rep.sub("verdicts_through_burst_parsing",
+                    "slot type: 4 (colour code, data type) codewords x all 1-, 2- and 3-bit errors within the 20 slot-type bits of a received data "
+                    "burst (1350 each), EMB: 4 (cc, PI, LCSS) codewords x all 1-, 2- and 3-bit errors within the 16 EMB bits of a received voice burst "
+                    "(696 each): burst.slot_type.fec_parity_ok / burst.emb.emb_parity_ok is the verdict on the received bits (false), and true for "
+                    "the undamaged burst")
+        slot_pos = list(range(98, 108)) + list(range(156, 166))
+        emb_pos = list(range(108, 116)) + list(range(148, 156))
+
+        def w_burst(task):
+            kind, raw_hex, positions = task
+            parity_only = set(positions[8:]) if kind == "slot" else set(positions[7:])
+            acc = Acc()
+            base = bitarray()
+            base.frombytes(bytes.fromhex(raw_hex))
+            bt = _BT.DataAndControl if kind == "slot" else _BT.Vocoder
+            for nerr in (0, 1, 2, 3):
+                for pat in itertools.combinations(positions, nerr):
+                    x = base.copy()
+                    for p_ in pat:
+                        x.invert(p_)
+                    case = {"kind": kind, "burst": raw_hex, "flipped": list(pat)}
+                    try:
+                        with contextlib.redirect_stdout(io.StringIO()):
+                            b = _B.from_bits(x, bt)
+                        ind = b.slot_type.fec_parity_ok if kind == "slot" else b.emb.emb_parity_ok
+                        if bool(ind) != (nerr == 0):
+                            acc.violation(f"{kind}_verdict_through_burst_is_not_the_verdict_on_the_received_bits", {**case, "indicator": bool(ind)},
+                                          "the indicator a parsed burst presents differs from membership of the received bits in the code")
+                    except Exception as e:  # noqa: BLE001
+                        if nerr == 0 or all(p_ in parity_only for p_ in pat):
+                            acc.violation(f"exception_burst_verdict:{kind}:" + exc_sig(e), case, repr(e))
+                        # (errors in the colour code / data type / PI / LCSS bits re-label the payload: that the payload then does not
+                        #  parse is not this property's business -- no verdict was presented)
+                    acc.case(nontrivial=True, calls=1, outcome=(kind, nerr), sample=case if len(acc.samples) < 1 and nerr == 2 else None)
+            return acc
+
+        tasks = []
+        from okdmr.dmrlib.etsi.layer2.elements.sync_patterns import SyncPatterns as _SP
+        for cc, dtn in ((0, "CSBK"), (15, "CSBK"), (5, "CSBK"), (10, "CSBK")):
+            raw = _MB.data_burst_bytes(_MB.preamble_csbk(3), DataTypes[dtn], cc=cc, sync=_SP.BsSourcedData)
+            tasks.append(("slot", raw.hex(), slot_pos))
+        for cc, pi, lc in ((0, 0, 0), (15, 1, 3), (5, 0, 1), (10, 1, 2)):
+            vb = _MB.voice_emb_bits(bitarray(env.det_bits(f"c04-voc-{cc}", 216)), cc, pi, lc, bitarray(env.det_bits(f"c04-emb-{cc}", 32)))
+            tasks.append(("emb", bitarray(vb).tobytes().hex(), emb_pos))
+        s.declared = 4 * (1 + 20 + 190 + 1140) + 4 * (1 + 16 + 120 + 560)
+        for acc in par.pmap(w_burst, tasks, nw):
+            s.merge(acc)
         s.done()
 
     rep.bounds = {
